@@ -339,6 +339,17 @@ def direct_cases():
     add("--raw-input0 -s", ["-sc", "--raw-input0", "."], b"Hello\nWorld\0foo", b'["Hello\\nWorld","foo"]\n', 0)
     add("-n ignores input", ["-n", "."], b"1 2 3", b"null\n", 0)
     add("-n first(inputs)", ["-n", "first(inputs)"], b"true true true", b"true\n", 0)
+    # endless input: each output is written before the next is computed, and a consumer of a prefix ends the run
+    add("endless input: -n first(inputs)", ["-n", "first(inputs)"], ("endless", "true"), b"true\n", 0)
+    add("endless input: -n ignores it", ["-n", "1"], ("endless", "true"), b"1\n", 0)
+    add("endless input: limit over inputs", ["-n", "-c", "[limit(3; inputs)]"], ("endless", "1"), b"[1,1,1]\n", 0)
+    add("endless input: halt after the first value", ["-c", "., halt"], ("endless", "7"), b"7\n", 0)
+    add("endless input: error after the first output stops the run", ["-c", "., error(\"stop\")"], ("endless", "7"), b"7\n", 5)
+    add("endless input: -e with halt(1)", ["-e", "halt(1)"], ("endless", "null"), b"", 1)
+    add("endless input: --raw-input first line", ["-R", "-n", "first(inputs)"], ("endless", "line"), b"\"line\"\n", 0)
+    add("endless generator: limit", ["-n", "-c", "[limit(2; repeat(1))]"], b"", b"[1,1]\n", 0)
+    add("endless generator: first of range", ["-n", "first(range(5; infinite))"], b"", b"5\n", 0)
+    add("endless generator: label/break", ["-n", "label $l | range(0; infinite) | if . == 3 then break $l else . end"], b"", b"0\n1\n2\n", 0)
     add("-jr", ["-jr", "."], b'"Hello" " " "World" "\\n"', b"Hello World\n", 0)
     add("-j", ["-j", "."], b"true false", b"truefalse", 0)
     add("-r nested unaffected", ["-rc", "."], b'["Hello\\nWorld"]', b'["Hello\\nWorld"]\n', 0)
@@ -355,12 +366,28 @@ def direct_cases():
     add("-j quotes strings when --to json is given", ["-j", "--to", "json", "."], b'"a" "b"', b'"a""b"', 0)
     return D
 
+def run_endless(argv, line, cwd, env):
+    """stdin is an endless stream of `line`: the run must end by itself (outputs are produced on demand)"""
+    prod = subprocess.Popen(["yes", line], stdout=subprocess.PIPE, stderr=subprocess.DEVNULL)
+    try:
+        p = subprocess.run([JAQ] + list(argv), stdin=prod.stdout, stdout=subprocess.PIPE, stderr=subprocess.PIPE, timeout=60, env=env, cwd=cwd)
+        return p.stdout, p.stderr, p.returncode
+    except subprocess.TimeoutExpired:
+        return b"<did not terminate within 60 s on an endless input>", b"timeout", -1
+    finally:
+        prod.kill(); prod.wait()
+
 def run_direct(name, argv, stdin, exp_out, exp_code, files):
     d = tempfile.mkdtemp(prefix="c17d-")
     try:
         for n, b in files.items():
             with open(os.path.join(d, n), "wb") as fh: fh.write(b)
-        so, se, code = run_jaq(argv, stdin=stdin, cwd=d, env={"PATH": os.environ.get("PATH", ""), "C17VAR": "env-value"})
+        env = {"PATH": os.environ.get("PATH", ""), "C17VAR": "env-value"}
+        if isinstance(stdin, tuple):
+            so, se, code = run_endless(argv, stdin[1], d, env)
+            stdin = b"<endless: " + stdin[1].encode() + b">"
+        else:
+            so, se, code = run_jaq(argv, stdin=stdin, cwd=d, env=env)
         problems = []
         if so != exp_out: problems.append("stdout differs")
         if code != exp_code: problems.append(f"exit status {code}, expected {exp_code}")
